@@ -85,4 +85,22 @@ example (l : ℕ) : gramL (R := R) (Chain.nil l) = 1 := by
   unfold gramL
   show ∑ c : Unit, _ = _
   simp [amp]
+
+open Matrix in
+/-- **trace of the one-site reduced density matrix = ⟨ψ|ψ⟩** (any gauge): the diagonal of the environment formula
+    sums to the squared norm of the dense state -/
+theorem rdm1_trace {ds1 ds2 : List ℕ} {d m k : ℕ} (a : Chain R ds1 1 m) (M : Site R d m k) (b : Chain R ds2 k 1) :
+    ∑ s : Fin d, trace (gramL a * M s * gramR b * (M s)ᴴ)
+      = ∑ s : Fin d, ∑ cL : Cfg ds1, ∑ cR : Cfg ds2, amp3 a M b cL s cR * star (amp3 a M b cL s cR) := by
+  refine Finset.sum_congr rfl fun s _ => ?_
+  rw [rdm1_env]
+
+open Matrix in
+/-- in the mixed-canonical gauge the trace is the squared Frobenius norm of the centre tensor -/
+theorem rdm1_trace_canonical {ds1 ds2 : List ℕ} {d m k : ℕ} (a : Chain R ds1 1 m) (M : Site R d m k) (b : Chain R ds2 k 1)
+    (hL : gramL a = 1) (hR : gramR b = 1) :
+    ∑ s : Fin d, ∑ cL : Cfg ds1, ∑ cR : Cfg ds2, amp3 a M b cL s cR * star (amp3 a M b cL s cR)
+      = ∑ s : Fin d, trace (M s * (M s)ᴴ) := by
+  rw [← rdm1_trace]; simp [hL, hR]
+
 end RenoVerif.Chain
